@@ -5,3 +5,10 @@ import DateutilVerif.Properties.C10
 #print axioms C10.history_inv
 #print axioms C10.history_inv_any
 #print axioms C10.history_inv_dropped
+#print axioms C10.gen_invalidate_eq_model
+#print axioms C10.gen_invalidate_uncached
+#print axioms C10.gen_rset_iter_eq_model
+#print axioms C10.rset_iter_eq_spec_source
+#print axioms C10.gen_genitem_eq_model
+#print axioms C10.gen_mutators_eq_model
+#print axioms C10.gen_base_init_eq_model
